@@ -2,6 +2,8 @@
 import importlib
 import itertools
 import math
+import os
+import traceback
 
 import numpy as np
 
@@ -88,7 +90,18 @@ RULE = (
     "routes: complex128 / complex64 / Python complex (a plane wave on top of the real value; sent to the real model as two tables, real and "
     "imaginary parts), np.longdouble, float32, int, bool, 0-d arrays, and kinds changing from point to point within one run; the kind of the "
     "result must follow (complex values -> complex result, longdouble -> longdouble, otherwise real) for every chunk size >= 1; the oracle's "
-    "nested product quadrature is in complex arithmetic. non-trivial = at least 2 domains and a chunk "
+    "nested product quadrature is in complex arithmetic. Round 4, present in every run: integrands that hand back their last argument itself "
+    "(the last grid's own point array) / a view of it / a persistent buffer / a write-protected array, with the caller's list, every grid's "
+    "points and weights (values, dtype, object) and the caller's arrays around views checked after EVERY call of integrate and after every "
+    "exception; grids built on negative-stride / column-major / int64 / int32 / float32 / bool-weight arrays and on windows of larger arrays "
+    "(float64 computation as reference; single-precision or bool weights with single-precision values to 1e-5); every spelling of the "
+    "constructor and integrate arguments (positional / keyword / reversed keywords / num_domains=None and the defaults spelled out) and the "
+    "documented rejections; distinct grids on one points array and one weights array, two multi-domain grids from one list object used "
+    "alternately with one integrand object; calls that end in an exception inside the histories (the integrand failing half-way in either "
+    "route, negative / fractional chunk sizes, a wrong-length vectorised integrand, the refusing methods) followed by accepted calls; sizes "
+    "all different with a 1 or 2 among them and point arrays with N = dimension and N < dimension; library grids with negative weights "
+    "(Lebedev 13), Becke-transformed radial grids (points to 1e4, weights over five orders of magnitude) and Gauss-Laguerre in the oracle. "
+    "corr and oracle run as independent guarded parts. non-trivial = at least 2 domains and a chunk "
     "size >= 1 not dividing the total (point-by-point), or at least 2 domains (vectorised / structure)"
 )
 TRUSTED_BASE = [
@@ -111,6 +124,7 @@ INTEGRAND_SRC = '''
 import numpy as np
 COMPLEX_RET = ("complex128", "complex64", "pycomplex", "mixed")
 class Integrand:
+    # kind 'lastarg': the first coordinate of the last argument, handed back as the argument object itself / a view of it;
     # kind 'sep': prod_k (c0[k] + c1[k] t_k + c2[k] t_k^2);  kind 'nonsep': exp(-0.3 s^2) + sum_k t_k t_{k+1} + 0.1 s,
     # s = sum_k c1[k] t_k;  t_k = a[k] * x_k for a scalar point (dims[k] = 1: grid points of shape (N,)), a[k] * x_k[0] for a
     # one-component point (dims[k] = 11: points of shape (N, 1)), d[k][:m] . x_k for an m-component point (dims[k] = m = 2, 3).
@@ -118,6 +132,7 @@ class Integrand:
     # ret: the type in which the value is handed back: float64 (NumPy scalar / array), float32, int (Python int / int64 array
     # holding rint(3 v)), int32, bool (v > 0.9; Python bool / bool array), list (Python float / list of floats), 0d (0-d array / array),
     # strided / readonly (NumPy scalar / a non-contiguous resp. write-protected array), a1 (one-element array of shape (1,) / array),
+    # memo (NumPy scalar / a persistent buffer, the same object on every call with the same first arguments),
     # longdouble (np.longdouble scalar / array), complex128 / complex64 / pycomplex (the value times a plane wave, as NumPy complex
     # scalar / array resp. Python complex / list), mixed (the kind of the value changes from point to point).
     # scale: factor on the value (1e-300 ... 1e200); zero: None, "all" (the integrand is exactly 0 everywhere) or a number z (exactly 0
@@ -127,6 +142,7 @@ class Integrand:
         self.kind, self.dims, self.a, self.d = kind, dims, a, [np.array(v, dtype=float) for v in d]
         self.c0, self.c1, self.c2, self.ret = c0, c1, c2, ret
         self.scale, self.zero, self.shift = scale, zero, shift
+        self._memo = {}
     def t(self, k, x):
         x = np.asarray(x, dtype=float) - self.shift
         if self.dims[k] == 1:
@@ -157,9 +173,20 @@ class Integrand:
             r = r + ts[k] * ts[k + 1]
         return r
     def __call__(self, *args):
+        if self.kind == "lastarg":
+            # the integrand is the (first) coordinate of the last argument and hands back THE ARGUMENT ITSELF (points that are scalars:
+            # the vectorised call gets the last grid's own point array and returns that very object) or a view of it
+            x = args[-1]
+            return x if self.dims[-1] == 1 else x[..., 0]
         r, ret = self.raw(*args), self.ret
         if ret == "float64":
             return r
+        if ret == "memo":
+            # a vectorised call hands back a persistent buffer: the same array object every time it is asked for the same first
+            # N-1 arguments (computed once, never recomputed)
+            if np.ndim(args[-1]) == (0 if self.dims[-1] == 1 else 1):
+                return r
+            return self._memo.setdefault(tuple(np.asarray(a).tobytes() for a in args[:-1]), np.array(r, dtype=float))
         a = np.asarray(r, dtype=float)
         scalar = a.ndim == 0
         if ret == "float32":
@@ -220,48 +247,133 @@ Integrand = _ns["Integrand"]
 # How a configuration is turned into objects and calls of the library (source text: used by the replay snippets too).
 BUILD_SRC = '''
 import numpy as np
-def _arr(values, how):
+def _arr(values, how, role="points"):
+    # the array object a grid is built on.  how: c / strided / readonly / negstride (negative strides) / fortran (column-major 2-D) /
+    # view (a window of a larger caller array whose other entries are 7.25) / int, int32, float32 (that dtype; the values are
+    # representable) / boolw (weights of dtype bool, points float64)
     a = np.array(values, dtype=float)
     if how == "strided":
         big = np.zeros(tuple(2 * s for s in a.shape)); sl = tuple(slice(None, None, 2) for _ in a.shape)
         big[sl] = a
         return big[sl]
+    if how == "view":
+        big = np.full(tuple(s + 3 for s in a.shape), 7.25); sl = tuple(slice(2, -1) for _ in a.shape)
+        big[sl] = a
+        return big[sl]
+    if how == "negstride":
+        return np.ascontiguousarray(a[::-1])[::-1]
+    if how == "fortran":
+        return np.asfortranarray(a)
+    if how in ("int", "int32", "float32"):
+        return a.astype({"int": np.int64, "int32": np.int32, "float32": np.float32}[how])
+    if how == "boolw" and role == "weights":
+        return a.astype(bool)
     if how == "readonly":
         a.setflags(write=False)
     return a
+def dom_index(cfg):
+    # which of the generated (points, weights) pairs sits in domain k
+    nd, mode = cfg["nd"], cfg["mode"]
+    return [0] * nd if mode in ("repeat", "list-same", "list-shared") else [k % 2 for k in range(nd)] if mode == "list-aba" else list(range(nd))
 def build(cfg, Grid, MultiDomainGrid):
-    # -> (multi-domain grid, listed grids, domains).  mode 'list': one grid per domain; 'repeat': one grid and num_domains;
-    # 'list-same': the *same grid object* listed nd times; 'list-aba': two grid objects listed alternately (A, B, A, ...).
-    lay = cfg.get("layout", "c")
-    grids = [Grid(_arr(p, lay), _arr(w, lay)) for p, w in zip(cfg["pts"], cfg["wts"])]
-    if cfg["mode"] == "list-aba":
-        listed = [grids[i % 2] for i in range(cfg["nd"])]
-        return MultiDomainGrid(listed), listed, listed
-    if cfg["mode"] == "repeat":
-        return MultiDomainGrid(grids, num_domains=cfg["nd"]), grids, grids * cfg["nd"]
-    if cfg["mode"] == "list-same":
-        same = [grids[0]] * cfg["nd"]
-        return MultiDomainGrid(same), same, same
-    return MultiDomainGrid(grids), grids, grids
+    # -> (multi-domain grid, the list object handed to the constructor, domains).  mode 'list': one grid per domain; 'repeat': one
+    # grid and num_domains; 'list-same': the *same grid object* listed nd times; 'list-aba': two grid objects listed alternately
+    # (A, B, A, ...); 'list-shared': nd distinct grid objects built on the SAME points array and the SAME weights array.
+    # cfg['ctor']: how the constructor arguments are spelled (positional / keyword / num_domains=None spelled out / keywords reversed)
+    lay, nd, ctor = cfg.get("layout", "c"), cfg["nd"], cfg.get("ctor", "default")
+    arrays = [(_arr(p, lay), _arr(w, lay, "weights")) for p, w in zip(cfg["pts"], cfg["wts"])]
+    if cfg["mode"] == "list-shared":
+        listed = [Grid(*arrays[0]) for _ in range(nd)]
+    else:
+        grids = [Grid(p, w) for p, w in arrays]
+        listed = grids if cfg["mode"] in ("list", "repeat") else [grids[g] for g in dom_index(cfg)]
+    n = nd if cfg["mode"] == "repeat" else None
+    if ctor == "positional":
+        mg = MultiDomainGrid(listed, n)
+    elif ctor == "kw":
+        mg = MultiDomainGrid(grid_list=listed, num_domains=n)
+    elif ctor == "kw-reversed":
+        mg = MultiDomainGrid(num_domains=n, grid_list=listed)
+    else:
+        mg = MultiDomainGrid(listed) if n is None else MultiDomainGrid(listed, num_domains=n)
+    return mg, listed, (listed * nd if cfg["mode"] == "repeat" else listed)
+def intact(cfg, listed, doms):
+    # None, or what is no longer as the caller built it: the list handed to the constructor (length, the objects in it), every
+    # grid's points and weights (values, dtype, array object) and -- for views -- the caller's larger arrays around them
+    lay, idx = cfg.get("layout", "c"), dom_index(cfg)
+    if len(listed) != (1 if cfg["mode"] == "repeat" else cfg["nd"]):
+        return f"the list handed to the constructor has {len(listed)} entries now"
+    if any(a is not b for a, b in zip(doms, listed * cfg["nd"] if cfg["mode"] == "repeat" else listed)):
+        return "the list handed to the constructor holds other objects now"
+    for k, d in enumerate(doms):
+        for role, have, values in (("points", d.points, cfg["pts"][idx[k]]), ("weights", d.weights, cfg["wts"][idx[k]])):
+            want = _arr(values, lay, role)
+            if not isinstance(have, np.ndarray) or have.dtype != want.dtype or have.shape != want.shape or not np.array_equal(have, want):
+                return f"{role} of the grid in domain {k} are {have!r}, built as {want!r}"
+            if isinstance(want.base, np.ndarray) and not (isinstance(have.base, np.ndarray) and have.base.shape == want.base.shape and np.array_equal(have.base, want.base)):
+                return f"the caller's array around the {role} of the grid in domain {k} changed"
+    return None
 def chunk_arg(cfg, c):
     return {"int": int, "np.int64": np.int64, "np.int32": np.int32}[cfg.get("ctype", "int")](c)
 def run(mg, f, cfg, kind, c=None):
-    # one call of integrate in the call form named by the configuration (c = None: the default chunk size)
-    pos = cfg.get("call", "kw") == "positional"
+    # one call of integrate in the call form named by the configuration (c = None: the default chunk size): keyword / positional /
+    # explicit (every option spelled out, the defaults too) / allkw (the integrand by keyword as well)
+    form = cfg.get("call", "kw")
     if kind == "vec":
-        return mg.integrate(f, False) if pos else mg.integrate(f)
+        if form == "positional":
+            return mg.integrate(f, False)
+        if form == "explicit":
+            return mg.integrate(f, non_vectorized=False, integration_chunk_size=6000)
+        if form == "allkw":
+            return mg.integrate(integration_chunk_size=6000, integrand_function=f)
+        return mg.integrate(f)
+    if form == "explicit" or form == "allkw":
+        size = 6000 if c is None else chunk_arg(cfg, c)
+        return mg.integrate(f, non_vectorized=True, integration_chunk_size=size) if form == "explicit" else mg.integrate(integration_chunk_size=size, non_vectorized=True, integrand_function=f)
     if c is None:
         return mg.integrate(f, non_vectorized=True)
-    if pos:
+    if form == "positional":
         return mg.integrate(f, True, chunk_arg(cfg, c))
     return mg.integrate(f, non_vectorized=True, integration_chunk_size=chunk_arg(cfg, c))
+class Raising:
+    # the integrand, failing with RuntimeError at its `at`-th call
+    def __init__(self, f, at):
+        self.f, self.at, self.n = f, at, 0
+    def __call__(self, *args):
+        self.n += 1
+        if self.n == self.at:
+            raise RuntimeError("the integrand failed")
+        return self.f(*args)
+def event(mg, f, cfg, kind, c=None):
+    # a call that ends in an exception (whatever the exception): -> its name, or None when the call returned
+    try:
+        if kind == "raise-vec":
+            mg.integrate(Raising(f, c))
+        elif kind == "raise-nonvec":
+            mg.integrate(Raising(f, c[1]), non_vectorized=True, integration_chunk_size=c[0])
+        elif kind == "badchunk":
+            mg.integrate(f, non_vectorized=True, integration_chunk_size=c)
+        elif kind == "vecbad":
+            mg.integrate(lambda *xs: np.asarray(f(*xs))[1:])
+        elif kind == "moments":
+            mg.moments(1, np.zeros((1, 3)), np.ones(3))
+        elif kind == "get_localgrid":
+            mg.get_localgrid(np.zeros(3), 1.0)
+        else:
+            raise AssertionError(kind)
+    except AssertionError:
+        raise
+    except Exception as e:
+        return type(e).__name__
+    return None
+EVENTS = ("raise-vec", "raise-nonvec", "badchunk", "vecbad", "moments", "get_localgrid")
 '''
 exec(BUILD_SRC, _ns)
-build, run = _ns["build"], _ns["run"]
-CFG_KEYS = ("mode", "nd", "dims", "pts", "wts", "par", "layout", "ctype", "call")
-EXACT_RET = ("float64", "list", "0d", "strided", "readonly", "longdouble", "complex128", "pycomplex")   # kinds that hand back the value unrounded
+build, run, intact, event, EVENTS, Raising = (_ns[k] for k in ("build", "run", "intact", "event", "EVENTS", "Raising"))
+CFG_KEYS = ("mode", "nd", "dims", "pts", "wts", "par", "layout", "ctype", "call", "ctor")
+EXACT_RET = ("float64", "list", "0d", "strided", "readonly", "memo", "longdouble", "complex128", "pycomplex")   # kinds that hand back the value unrounded
 COMPLEX_RET = _ns["COMPLEX_RET"]
-SINGLE = ("repeat", "list-same")               # modes with one grid object in every domain
+SINGLE = ("repeat", "list-same", "list-shared")               # modes with one (points, weights) pair in every domain
 
 
 def _r(x):
@@ -269,7 +381,7 @@ def _r(x):
 
 
 def _domain_index(mode, nd):
-    """which of the generated grids sits in domain k"""
+    """which of the generated (points, weights) pairs sits in domain k"""
     return [0] * nd if mode in SINGLE else [k % 2 for k in range(nd)] if mode == "list-aba" else list(range(nd))
 
 
@@ -285,7 +397,8 @@ def _config(ctx: Ctx, cap: int, nd=None, mode=None, sizes=None, plain=False, **f
     nd = nd or rng.choice([1, 2, 2, 3, 3, 4])
     if mode is None:
         u = rng.random()
-        mode = "repeat" if u < 0.25 else "list-same" if u < 0.37 and nd >= 2 else "list-aba" if u < 0.45 and nd >= 3 else "list"
+        mode = ("repeat" if u < 0.25 else "list-same" if u < 0.35 and nd >= 2 else "list-aba" if u < 0.43 and nd >= 3
+                else "list-shared" if u < 0.5 and nd >= 2 else "list")
     ngr = 1 if mode in SINGLE else 2 if mode == "list-aba" else nd
     dom = _domain_index(mode, nd)
     while sizes is None or len(sizes) != ngr:
@@ -295,6 +408,16 @@ def _config(ctx: Ctx, cap: int, nd=None, mode=None, sizes=None, plain=False, **f
     tot = math.prod(sizes[g] for g in dom)
     # a point is a scalar (points of shape (N,)), a 1-vector ((N, 1)), a 2-vector or a 3-vector: mixed freely
     dims = [rng.choice([1, 1, 11, 2, 3, 3]) for _ in range(ngr)]
+    if force.get("dims"):
+        dims = list(force["dims"])
+    # what the grids' arrays are (class 14): plain float64, non-contiguous, write-protected, negative strides, column-major, windows of
+    # larger caller arrays, or another dtype (then the numbers are representable in it: small integers / multiples of 1/8 / 0 and 1)
+    layout = force.get("layout") or rng.choice(["c"] * 6 + ["strided", "readonly", "negstride", "fortran", "view", "view", "int", "int32", "float32", "boolw"])
+    typed = layout in ("int", "int32", "float32", "boolw")
+    lastarg = force.get("kind") == "lastarg"
+    if typed or lastarg:
+        plain = True
+        force = {k: v for k, v in force.items() if k not in ("wexp", "shift", "fscale") and not (lastarg and k == "zero")}
     ex = {} if plain else dict(
         zero_w=rng.choice([None] * 7 + ["lead", "some", "some"]),
         wexp=rng.random() < 0.2, fscale=rng.random() < 0.2,
@@ -308,8 +431,15 @@ def _config(ctx: Ctx, cap: int, nd=None, mode=None, sizes=None, plain=False, **f
             p = [[rng.randint(-1536, 1536) / 1024 + shift for _ in range(1 if dm == 11 else dm)] for _ in range(n)]
         else:
             p = [[_r(rng.uniform(-1.5, 1.5)) for _ in range(1 if dm == 11 else dm)] for _ in range(n)]
+        w = [_r(rng.uniform(-0.5, 1.5)) or 0.25 for _ in range(n)]
+        if layout in ("int", "int32"):
+            p, w = [[float(rng.randint(-3, 3)) for _ in q] for q in p], [float(rng.randint(-1, 3)) for _ in w]
+        elif layout == "float32":
+            p, w = [[rng.randint(-12, 12) / 8 for _ in q] for q in p], [rng.randint(-4, 12) / 8 for _ in w]
+        elif layout == "boolw":
+            w = [float(rng.random() < 0.7) for _ in w]
         pts.append([q[0] for q in p] if dm == 1 else p)
-        wts.append([_r(rng.uniform(-0.5, 1.5)) or 0.25 for _ in range(n)])
+        wts.append(w)
     # weights that are exactly zero: the first weight of the first grid (a whole leading block of the product order has
     # weight 0), or some weights anywhere
     if ex.get("zero_w") == "lead":
@@ -355,10 +485,14 @@ def _config(ctx: Ctx, cap: int, nd=None, mode=None, sizes=None, plain=False, **f
         c1=[_r(rng.uniform(-1, 1)) for _ in range(nd)],
         c2=[_r(rng.uniform(-0.5, 0.5)) for _ in range(nd)],
         ret=rng.choice(["float64"] * 8 + ["float32", "int", "int32", "bool", "list", "0d", "strided", "readonly", "longdouble",
-                        "complex128", "complex128", "complex64", "pycomplex", "mixed"]),
+                        "complex128", "complex128", "complex64", "pycomplex", "mixed", "memo", "memo"]),
     )
+    if lastarg:
+        par["kind"], ex["ret"] = "lastarg", "float64"
     if ex.get("ret"):
         par["ret"] = ex["ret"]
+    if layout == "boolw" and par["ret"] == "bool":
+        par["ret"] = "int"     # bool weights times bool values is Boolean algebra in einsum (weights are documented as float arrays): not combined
     if nd == 1 and par["ret"] == "list":
         par["ret"] = "0d"      # a list-valued vectorised integrand on ONE domain is a listed finding (probed by the oracle under its own key)
     if fscale != 1.0:
@@ -373,9 +507,10 @@ def _config(ctx: Ctx, cap: int, nd=None, mode=None, sizes=None, plain=False, **f
         t0 = sorted(float(Integrand(**par).t(0, x)) for x in pts[0])
         par["zero"] = "all" if ex["zero"] == "all" else (float(Integrand(**par).t(0, pts[0][0])) if ex["zero"] == "lead" else t0[len(t0) // 2]) + 1e-9
     return dict(mode=mode, nd=nd, dims=dims, pts=pts, wts=wts, par=par, total=tot,
-                layout=rng.choice(["c"] * 4 + ["strided", "readonly"]),
+                layout=layout,
                 ctype=rng.choice(["int"] * 3 + ["np.int64", "np.int32"]),
-                call=rng.choice(["kw", "kw", "positional"]))
+                call=force.get("call") or rng.choice(["kw", "kw", "positional", "explicit", "allkw"]),
+                ctor=force.get("ctor") or rng.choice(["default", "default", "positional", "kw", "kw-reversed"]))
 
 
 def _build(cfg):
@@ -385,7 +520,7 @@ def _build(cfg):
 
 
 def _spec(cfg):
-    if cfg["mode"] in ("list-same", "list-aba"):              # the same object several times is, for the model, equal domains
+    if cfg["mode"] in ("list-same", "list-aba", "list-shared"):              # the same object / the same arrays several times are, for the model, equal domains
         return f"list {cfg['nd']} {cfg['nd']} " + " ".join(fvec(cfg["wts"][g]) for g in _domain_index(cfg["mode"], cfg["nd"]))
     return f"{cfg['mode']} {cfg['nd']} {len(cfg['wts'])} " + " ".join(fvec(w) for w in cfg["wts"])
 
@@ -403,6 +538,12 @@ def _cclose(a, b, rtol, scale):
     """complex results: real and imaginary parts each within rtol * scale (nan / inf as in `close`)"""
     a, b = complex(a), complex(b)
     return close(a.real, b.real, rtol=rtol, scale=scale) and close(a.imag, b.imag, rtol=rtol, scale=scale)
+
+
+def _rtol(cfg, base):
+    """single-precision (or bool) weights times single-precision values are multiplied and summed in single precision (the precision the
+    caller chose for both): agreement to 1e-5 of the scale is demanded there"""
+    return 1e-5 if cfg.get("layout") in ("float32", "boolw") and cfg["par"]["ret"] in ("float32", "complex64") else base      # (bool weights do not widen float32 values either)
 
 
 def _result_kind(x):
@@ -427,7 +568,9 @@ def _pub(cfg):
 
 
 def _variants(ctx, cfg):
-    for k, dflt in (("layout", "c"), ("ctype", "int"), ("call", "kw")):
+    if cfg["par"]["kind"] == "lastarg":
+        ctx.tagc("variant:integrand-returns-its-argument" + (":view" if cfg["par"]["dims"][-1] != 1 else ""))
+    for k, dflt in (("layout", "c"), ("ctype", "int"), ("call", "kw"), ("ctor", "default")):
         if cfg.get(k, dflt) != dflt:
             ctx.distribution[f"variant:{k}={cfg[k]}"] = ctx.distribution.get(f"variant:{k}={cfg[k]}", 0) + 1
     if cfg["par"]["ret"] != "float64":
@@ -519,6 +662,7 @@ def corr(ctx: Ctx):
              _config(ctx, 300, 2, "list", plain=True, ret="mixed"), _config(ctx, 300, 3, "repeat", plain=True, ret="mixed"),
              _config(ctx, 300, 2, "list", plain=True, ret="longdouble"), _config(ctx, 300, 1, "list", plain=True, ret="longdouble"),
              _config(ctx, 300, 2, "list", plain=True, ret="complex128", zero="lead"), _config(ctx, 300, 2, "list", plain=True, ret="complex128", fscale=1e-300)]
+    cfgs += _round4_configs(ctx)
     nfixed = len(cfgs)
     # class 7: the only literal threshold of integrate is the default chunk size 6000: totals next to it (the default
     # then splits into 6000 + 1 / 6000 + 84 / does not split), called with the default and with explicit sizes around it
@@ -530,9 +674,17 @@ def corr(ctx: Ctx):
     cfgs += [_config(ctx, cap if i % 5 else 60) for i in range(max(0, ncfg - len(cfgs)))]
     lines, meta = [], []
     for ci, cfg in enumerate(cfgs):
-        mg, grids, doms = _build(cfg)
-        f = Integrand(**cfg["par"])
-        tab = _table(doms, f)
+        try:
+            mg, grids, doms = _build(cfg)
+            f = Integrand(**cfg["par"])
+            if intact(cfg, grids, doms):
+                raise RuntimeError("after construction: " + intact(cfg, grids, doms))
+            tab = _table(doms, f)
+        except Exception as e:
+            # the configuration cannot even be set up on this tree: recorded with the configuration (oracle_at evaluates the property there), the others go on
+            ctx.fail("corr", "ngrid.__init__:setup", f"building the grids / tabulating the integrand raised {type(e).__name__}: {e}", witness=_pub(cfg))
+            cfg["_ops"] = []
+            continue
         cfg["_tab"] = tab
         spec = _spec(cfg)
         # a complex-valued integrand goes to the (real) model as two tables, real and imaginary parts (the nested product sum
@@ -568,7 +720,9 @@ def corr(ctx: Ctx):
     built = {}
     memo = {}
     model_ans = {}
-    for (ci, kind, c, who, part), a in zip(meta, ans):
+    parts = _Parts(ctx, "corr")
+
+    def one(ci, kind, c, who, part, a):
         cfg = cfgs[ci]
         if ci not in built:
             built.clear()
@@ -588,7 +742,7 @@ def corr(ctx: Ctx):
             t = Tokens(a)
             if t.tok() != "ok":
                 ctx.fail("corr", "ngrid.struct" + sfx, f"{who} rejected a valid configuration: {a}", witness=wit)
-                continue
+                return
             msize = t.nat()
             r, cc = t.nat(), t.nat()
             combos = [[t.nat() for _ in range(cc)] for _ in range(r)]
@@ -615,7 +769,7 @@ def corr(ctx: Ctx):
             isize, ipts, iw = memo["struct"]
             if isize != msize or len(ipts) != r or len(iw) != len(mw):
                 ctx.fail("corr", "ngrid.size" + sfx, f"size: implementation {isize} (points {len(ipts)}, weights {len(iw)}), {who} {msize} ({r}, {len(mw)})", witness=wit)
-                continue
+                return
             okp = all(
                 len(tp) == len(cb) and all(np.array_equal(np.asarray(x), np.asarray(d.points[i])) for x, d, i in zip(tp, doms, cb))
                 for tp, cb in zip(ipts, combos)
@@ -624,7 +778,7 @@ def corr(ctx: Ctx):
                 ctx.fail("corr", "ngrid.points" + sfx, f"enumerated points differ from the product order of the {who}", witness=wit)
             if not all(close(x, y, rtol=1e-13, atol=0.0) for x, y in zip(iw, mw)):
                 ctx.fail("corr", "ngrid.weights" + sfx, f"enumerated weights differ from those of the {who}", witness=wit)
-            continue
+            return
         if "scale" not in memo:
             wprod = np.ones(())
             for d in doms:
@@ -650,6 +804,12 @@ def corr(ctx: Ctx):
                     return "value-error", None
                 except Exception as e:                      # nothing else is an accepted outcome
                     return f"raised {type(e).__name__}: {e}", None
+                finally:
+                    # the grids, their arrays and the caller's list after EVERY call (also one that raised)
+                    bad = intact(cfg, grids, doms)
+                    if bad and not memo.get("modified"):
+                        memo["modified"] = True
+                        ctx.fail("corr", "ngrid.integrate:grid-modified", f"after integrate ({kind}, chunk {c}; integrand {cfg['par']['kind']} / values handed back as {ret}): {bad}", witness=wit)
             iv = call()
             # the same call again on the same object, after a call of the other route (identical answer required)
             if (ci + len(memo)) % 3 == 0 and total <= 300:
@@ -677,19 +837,29 @@ def corr(ctx: Ctx):
         tag = t.tok()
         if tag != iv[0]:
             ctx.fail("corr", f"ngrid.integrate:{kind}" + sfx, f"{kind} c={c}: implementation {iv}, {who} {a}", witness=wit)
-            continue
+            return
         if tag == "ok":
             mv = t.flt()
             if who == "model" and kind in ("vec", "nonvec"):
                 model_ans[(ci, kind, c, part)] = mv
             got = iv[1].real if part == "re" else iv[1].imag
-            if not close(got, mv, rtol=1e-11, scale=scale):
+            if not close(got, mv, rtol=_rtol(cfg, 1e-11), scale=scale):
                 ctx.fail("corr", f"ngrid.integrate:{kind}" + sfx, f"{kind} c={c}: implementation {iv[1]!r}, its {'real' if part == 're' else 'imaginary'} part by the {who} {mv!r} "
                          f"(scale {scale:.3g}; integrand values of kind {ret})", witness=wit)
             if part == "re" and ret not in COMPLEX_RET and iv[1].imag != 0.0:
                 ctx.fail("corr", f"ngrid.integrate:{kind}" + sfx, f"{kind} c={c}: a real-valued integrand ({ret}) gives the complex result {iv[1]!r}", witness=wit)
-    _histories(ctx, cfgs, model_ans, nfixed)
-    _refusals(ctx, cfgs, nfixed)
+
+    for (ci, kind, c, who, part), a in zip(meta, ans):
+        parts.run("ngrid.corr", lambda: one(ci, kind, c, who, part, a), witness=lambda: dict(_pub(cfgs[ci]), op=kind, chunk=c))
+
+    parts.run("ngrid.histories", lambda: _histories(ctx, cfgs, model_ans, nfixed))
+    parts.run("ngrid.refusals", lambda: _refusals(ctx, cfgs, nfixed))
+    parts.run("ngrid._chunked_iterator", lambda: _corr_chunks(ctx, ng))
+    parts.run("ngrid.__init__", lambda: _corr_constructor(ctx, ng, bg))
+    parts.finish()
+
+
+def _corr_chunks(ctx, ng):
     # _chunked_iterator lengths (sizes as int and as np.int64)
     pairs = [(c, n) for c in (0, 1, 2, 3, 5, 7, 6000) for n in (0, 1, 2, 5, 6, 7, 14, 15)]
     for op in ("C18.chunks", "C18.gen-chunks"):
@@ -704,6 +874,9 @@ def corr(ctx: Ctx):
             if a != "ok " + " ".join(map(str, [len(impl)] + impl)):
                 ctx.fail("corr", "ngrid._chunked_iterator" + (":generated" if "gen" in op else ""),
                          f"_chunked_iterator(range({n}), {c}) has chunk lengths {impl}, {op} answers {a}")
+
+
+def _corr_constructor(ctx, ng, bg):
     # constructor rejections
     g1 = bg.Grid(np.array([0.0, 1.0]), np.array([1.0, 1.0]))
     g2 = bg.Grid(np.zeros((3, 3)), np.ones(3))
@@ -723,67 +896,126 @@ def corr(ctx: Ctx):
                          f"MultiDomainGrid({len(gl)} grids, num_domains={nd}): implementation {impl}, {op} answers {a}")
 
 
+def _round4_configs(ctx):
+    """Present in every run (round 4)."""
+    out = []
+    # integrands that hand back their last argument itself (the last grid's own point array in the vectorised route) / a view of
+    # it / a persistent buffer / a write-protected array; the grids are checked after every call
+    for nd, mode, dims in ((1, "list", [1]), (2, "list", [3, 1]), (3, "list", [1, 2, 1]), (2, "repeat", [1]), (3, "list-same", [1]), (2, "list", [1, 3]),
+                           (2, "list", [1, 11]), (3, "list-aba", [2, 1]), (2, "list-shared", [1])):
+        out.append(_config(ctx, 300, nd, mode, dims=dims, kind="lastarg", layout=ctx.rng.choice(["c", "view", "strided"])))
+    out += [_config(ctx, 300, 2, "list", plain=True, ret="memo"), _config(ctx, 300, 3, "repeat", plain=True, ret="memo"), _config(ctx, 300, 1, "list", plain=True, ret="memo"),
+            _config(ctx, 300, 3, "list", plain=True, ret="readonly"), _config(ctx, 300, 1, "list", plain=True, ret="readonly")]
+    # class 14: what the arrays inside the grids are
+    for i, lay in enumerate(("negstride", "fortran", "view", "int", "int32", "float32", "boolw", "readonly", "strided")):
+        out.append(_config(ctx, 300, 2 + i % 2, ["list", "repeat", "list-aba"][i % 3] if i % 3 != 2 else "list", layout=lay, dims=None if lay != "fortran" else [3, 2, 3][: 2 + i % 2]))
+        out.append(_config(ctx, 300, 1 + i % 3, "list", layout=lay, kind="lastarg" if i % 2 else None))
+    # class 15: every way of spelling the constructor and integrate arguments
+    for ctor in ("default", "positional", "kw", "kw-reversed"):
+        for call in ("kw", "positional", "explicit", "allkw"):
+            out.append(_config(ctx, 120, 2 + (len(out) % 2), "repeat" if len(out) % 3 == 0 else "list", ctor=ctor, call=call))
+    # class 16: distinct grid objects on the same points array and the same weights array
+    out += [_config(ctx, 300, 2, "list-shared"), _config(ctx, 300, 3, "list-shared", layout="view"), _config(ctx, 300, 4, "list-shared", sizes=[2])]
+    # class 20: every pair of sizes different with a 1 or a 2 among them, point arrays that are square (N = dimension), N < dimension
+    for sizes, dims in (([1, 2, 3], [3, 2, 1]), ([3, 1, 2], [2, 3, 3]), ([2, 3, 1], [3, 3, 2]), ([3, 2], [3, 2]), ([2, 3], [3, 2]), ([2, 2], [2, 2]),
+                        ([1, 2], [3, 3]), ([2, 1], [2, 3]), ([1, 1], [11, 3]), ([3], [3]), ([2], [2]), ([1, 3, 2, 2], [1, 3, 2, 11])):
+        out.append(_config(ctx, 300, len(sizes), "list", sizes=sizes, dims=dims))
+    out += [_config(ctx, 300, 3, "repeat", sizes=[2], dims=[3]), _config(ctx, 300, 2, "repeat", sizes=[3], dims=[3]), _config(ctx, 300, 3, "list-aba", sizes=[2, 3], dims=[3, 2])]
+    return out
+
+
+def _events(rng, cfg, n):
+    """n calls that end in an exception (class 18): the integrand failing at its k-th call in either route, a negative / fractional
+    chunk size, a vectorised integrand of the wrong length, the refusing methods"""
+    pool = [("raise-vec", 1), ("raise-vec", 2), ("raise-nonvec", (rng.choice([1, 2, 6000]), rng.randint(1, cfg["total"]))), ("badchunk", -1),
+            ("badchunk", 2.5), ("vecbad", None), ("moments", None), ("get_localgrid", None)]
+    return rng.sample(pool, n)
+
+
 def _histories(ctx, cfgs, model_ans, nfixed):
-    """Classes 10 / 11: on ONE freshly built object a shuffled sequence of calls -- the vectorised route, the point-by-point
-    route with several chunk sizes (changed from call to call, each used at least twice), size / points / weights and the
-    refusing methods in between; the first call of the object is whichever comes first in the shuffle (also a non-default
-    chunk size on an object that never integrated before).  Every answer is compared with the model's answer for that
-    call and must be bit-identical to the earlier answer of the same call."""
+    """Classes 10 / 11 / 16 / 18: on freshly built objects a shuffled sequence of calls -- the vectorised route, the point-by-point
+    route with several chunk sizes (changed from call to call, each used at least twice); the first call is whichever comes
+    first in the shuffle (also a non-default chunk size on an object that never integrated before).  The calls alternate
+    between TWO multi-domain grids built from the same list object and use the same integrand object; in between: size /
+    points / weights, and calls that end in an exception (the integrand failing half-way in either route, bad chunk sizes,
+    a vectorised integrand of the wrong length, the refusing methods).  Every answer is compared with the model's answer for
+    that call and must be bit-identical to the earlier answer of the same call; after every call and every exception the
+    caller's list, the grids, their arrays and the arrays around them must be as they were built."""
+    parts = _Parts(ctx, "corr")
     for ci, cfg in enumerate(cfgs):
         if not (ci < nfixed or ci % 3 == 0) or cfg["total"] > 320 or cfg.get("_big"):
             continue
-        ops = sorted({o for o in cfg["_ops"] if (o[1] is None or o[1] >= 1) and (ci,) + o + ("re",) in model_ans}, key=lambda o: (o[0], o[1] or 0))
-        if len(ops) < 2:
-            continue
-        seq = ops * 2
-        ctx.rng.shuffle(seq)
-        seq = seq[:10] + [seq[0]]
-        extras = ctx.rng.sample(range(len(seq)), 3)
-        mg, grids, doms = _build(cfg)
-        f = Integrand(**cfg["par"])
-        seen, trace = {}, []
-        first = None
-        ok = True
-        for i, (kind, c) in enumerate(seq):
-            if i in extras:
-                j = extras.index(i)
-                if j == 0:
-                    first = first or _struct_of(mg)
-                    if not _same_struct(_struct_of(mg), first):
-                        ctx.fail("corr", "ngrid.struct:history", f"size / points / weights changed after the calls {trace}", witness=dict(_pub(cfg), history=trace))
-                    trace.append(["struct"])
-                else:
-                    try:
-                        (mg.get_localgrid(np.zeros(3), 1.0) if j == 1 else mg.moments(1, np.zeros((1, 3)), np.ones(cfg["total"])))
-                        ctx.fail("corr", "ngrid.refusal:history", f"{'get_localgrid' if j == 1 else 'moments'} returned instead of raising NotImplementedError after {trace}", witness=dict(_pub(cfg), history=trace))
-                    except NotImplementedError:
-                        pass
-                    except Exception as e:
-                        ctx.fail("corr", "ngrid.refusal:history", f"{'get_localgrid' if j == 1 else 'moments'} raised {type(e).__name__} instead of NotImplementedError", witness=dict(_pub(cfg), history=trace))
-                    trace.append(["get_localgrid" if j == 1 else "moments"])
-            try:
-                got = complex(run(mg, f, cfg, kind, c))
-            except Exception as e:
-                ctx.fail("corr", "ngrid.integrate:history", f"call {i} ({kind}, chunk {c}) of the history {trace} raised {type(e).__name__}: {e}", witness=dict(_pub(cfg), history=trace + [[kind, c]], chunk=c))
-                ok = False
-                break
-            trace.append([kind, c])
-            want = complex(model_ans[(ci, kind, c, "re")], model_ans.get((ci, kind, c, "im"), 0.0))
-            if not _cclose(got, want, 1e-11, cfg["_scale"]):
-                ctx.fail("corr", "ngrid.integrate:history", f"call {i} ({kind}, chunk {c}) after {trace[:-1]}: implementation {got!r}, model {want!r}", witness=dict(_pub(cfg), history=trace, chunk=c))
-                ok = False
-            if (kind, c) in seen and seen[(kind, c)] != got and not (got != got and seen[(kind, c)] != seen[(kind, c)]):
-                ctx.fail("corr", "ngrid.integrate:history", f"call {i} ({kind}, chunk {c}) gives {got!r}, the same call earlier in the history {trace} gave {seen[(kind, c)]!r}", witness=dict(_pub(cfg), history=trace, chunk=c))
-                ok = False
-            seen[(kind, c)] = got
-        ctx.traces += 1
-        ctx.count(["history", _pub(cfg), trace], nontrivial=cfg["nd"] >= 2 and ok, tag="history:first=" + (seq[0][0] + ("" if seq[0][1] is None else ":chunk")), n=len(trace))
+        parts.run("ngrid.integrate:history", lambda: _history_one(ctx, ci, cfg, model_ans), witness=lambda: _pub(cfg))
+    parts.finish()
+
+
+def _history_one(ctx, ci, cfg, model_ans):
+    if not cfg.get("_ops"):
+        return
+    ops = sorted({o for o in cfg["_ops"] if (o[1] is None or o[1] >= 1) and (ci,) + o + ("re",) in model_ans}, key=lambda o: (o[0], o[1] or 0))
+    if len(ops) < 2:
+        return
+    seq = ops * 2
+    ctx.rng.shuffle(seq)
+    seq = seq[:10] + [seq[0]]
+    where = ctx.rng.sample(range(len(seq)), 4)
+    events = [("struct", None)] + _events(ctx.rng, cfg, 3)
+    pub = _pub(cfg)
+    try:
+        mg, listed, doms = _build(cfg)
+        mgs = [mg, type(mg)(listed, num_domains=cfg["nd"] if cfg["mode"] == "repeat" else None)]       # the same list object twice
+    except Exception as e:
+        ctx.fail("corr", "ngrid.__init__:raises", f"building two multi-domain grids from one list raised {type(e).__name__}: {e}", witness=pub)
+        return
+    f = Integrand(**cfg["par"])
+    seen, trace = {}, []
+    first = None
+    ok = True
+
+    def check(what):
+        bad = intact(cfg, listed, doms)
+        if bad:
+            ctx.fail("corr", "ngrid.integrate:grid-modified", f"after {what} of the history {trace}: {bad}", witness=dict(pub, history=trace))
+        return not bad
+
+    for i, (kind, c) in enumerate(seq):
+        if i in where:
+            ek, ea = events[where.index(i)]
+            if ek == "struct":
+                first = first or _struct_of(mgs[i % 2])
+                if not _same_struct(_struct_of(mgs[i % 2]), first):
+                    ctx.fail("corr", "ngrid.struct:history", f"size / points / weights changed after the calls {trace}", witness=dict(pub, history=trace))
+            else:
+                name = event(mgs[i % 2], f, cfg, ek, ea)
+                if ek in ("moments", "get_localgrid") and name != "NotImplementedError":
+                    ctx.fail("corr", "ngrid.refusal:history", f"{ek} {'returned' if name is None else 'raised ' + name} instead of raising NotImplementedError after {trace}", witness=dict(pub, history=trace))
+                ctx.tagc(f"history:event:{ek}:{'raised' if name else 'returned'}")
+            trace.append([ek, ea])
+            ok = check(f"the call {ek} {ea}") and ok
+        try:
+            got = complex(run(mgs[i % 2], f, cfg, kind, c))
+        except Exception as e:
+            ctx.fail("corr", "ngrid.integrate:history", f"call {i} ({kind}, chunk {c}) of the history {trace} raised {type(e).__name__}: {e}", witness=dict(pub, history=trace + [[kind, c]], chunk=c))
+            ok = False
+            break
+        trace.append([kind, c])
+        ok = check(f"call {i} ({kind}, chunk {c})") and ok
+        want = complex(model_ans[(ci, kind, c, "re")], model_ans.get((ci, kind, c, "im"), 0.0))
+        if not _cclose(got, want, _rtol(cfg, 1e-11), cfg["_scale"]):
+            ctx.fail("corr", "ngrid.integrate:history", f"call {i} ({kind}, chunk {c}) after {trace[:-1]}: implementation {got!r}, model {want!r}", witness=dict(pub, history=trace, chunk=c))
+            ok = False
+        if (kind, c) in seen and seen[(kind, c)] != got and not (got != got and seen[(kind, c)] != seen[(kind, c)]):
+            ctx.fail("corr", "ngrid.integrate:history", f"call {i} ({kind}, chunk {c}) gives {got!r}, the same call earlier in the history {trace} gave {seen[(kind, c)]!r}", witness=dict(pub, history=trace, chunk=c))
+            ok = False
+        seen[(kind, c)] = got
+    ctx.traces += 1
+    ctx.count(["history", pub, trace], nontrivial=cfg["nd"] >= 2 and ok, tag="history:first=" + (seq[0][0] + ("" if seq[0][1] is None else ":chunk")), n=len(trace))
 
 
 def _refusals(ctx, cfgs, nfixed):
     """get_localgrid / moments of a multi-domain grid refuse (NotImplementedError) for every way of calling them;
     the generated methods (Gen/NGrid.lean) answer the same."""
-    sel = [ci for ci, cfg in enumerate(cfgs) if (ci < 12 or ci % 40 == 0) and not cfg.get("_big")]
+    sel = [ci for ci, cfg in enumerate(cfgs) if (ci < 12 or ci % 40 == 0) and not cfg.get("_big") and cfg.get("_ops")]
     lines, calls = [], []
     for n, ci in enumerate(sel):
         cfg = cfgs[ci]
@@ -832,19 +1064,29 @@ def kind_of(x):
 what = {what!r}
 try:
     if what == 'separable':
+        for kind, c in {seq!r}:               # the calls made on this object before
+            run(mg, f, cfg, kind, c)
         got = complex(run(mg, f, cfg, 'vec'))
         want = 1.0 + 0j
         for k, d in enumerate(doms):
             want = want * csum([float(d.weights[i]) * complex(f.factor(k, d.points[i])) for i in range(d.size)])
     elif what == 'history':
         # one freshly built object, the calls in this order; every answer is the product quadrature
+        # (entries named in EVENTS are calls that end in an exception); after every call the caller's list, the grids and their
+        # arrays are as they were built
         got, seq, seen = want, {seq!r}, {{}}
         for kind, c in seq:
+            if kind in EVENTS:
+                name = event(mg, f, cfg, kind, c)
+                assert kind not in ('moments', 'get_localgrid') or name == 'NotImplementedError', f'{{kind}} of a multi-domain grid: {{name}} instead of NotImplementedError'
+                assert intact(cfg, grids, doms) is None, f'history {{seq}}: after the call ({{kind}}, {{c}}): ' + str(intact(cfg, grids, doms))
+                continue
             res = run(mg, f, cfg, kind, c)
+            assert intact(cfg, grids, doms) is None, f'history {{seq}}: after the call ({{kind}}, chunk {{c}}): ' + str(intact(cfg, grids, doms))
             assert kind_of(res) in kinds, f'history {{seq}}: the call ({{kind}}, chunk {{c}}) hands back a result of kind {{kind_of(res)}} ({{res!r}}) for integrand values of kind {{cfg["par"]["ret"]}}'
             v = complex(res)
             assert seen.setdefault((kind, c), v) == v or v != v, f'history {{seq}}: the call ({{kind}}, chunk {{c}}) gives {{v!r}}, the same call earlier on this object gave {{seen[(kind, c)]!r}}'
-            assert abs(v - want) <= 1e-10 * scale, f'history {{seq}}: the call ({{kind}}, chunk {{c}}) gives {{v!r}}, nested product quadrature {{want!r}}'
+            assert abs(v - want) <= {rtol} * scale, f'history {{seq}}: the call ({{kind}}, chunk {{c}}) gives {{v!r}}, nested product quadrature {{want!r}}'
     elif what == 'translated':
         # the same grids and integrand translated back by the (exactly representable) shift: identical integrals
         sh = cfg['par']['shift']
@@ -879,7 +1121,7 @@ except AssertionError:
     raise
 except Exception as e:
     raise AssertionError(f'{{what}}: raised {{type(e).__name__}}: {{e}}')
-assert abs(got - want) <= 1e-10 * scale, f'{{what}}: integrate gives {{got!r}}, nested product quadrature {{want!r}}'
+assert abs(got - want) <= {rtol} * scale, f'{{what}}: integrate gives {{got!r}}, nested product quadrature {{want!r}}'
 """
 
 
@@ -899,22 +1141,134 @@ assert abs(got - want) <= 1e-12 * (1 + abs(want)), (got, want)
 """
 
 
+class _Parts:
+    """Independent parts of the oracle / the correspondence: an exception inside one part never hides what the others find.
+    An exception whose innermost non-NumPy frame is library code is a failure of that part on the implementation
+    (`<key>:raises`, with the part's witness and replay snippet); one that comes from this harness (or from the driver) is
+    kept -- the first one -- and re-raised after all parts have run."""
+
+    def __init__(self, ctx, stage):
+        self.ctx, self.stage, self.first = ctx, stage, None
+        self.lib = os.path.dirname(os.path.abspath(importlib.import_module("grid").__file__))
+
+    def run(self, key, fn, witness=None, snippet=None):
+        try:
+            fn()
+        except Exception as e:
+            frames = [fr.filename for fr in traceback.extract_tb(e.__traceback__)]
+            ours = [fn_ for fn_ in frames if fn_.startswith(self.lib) or fn_ == "<string>" or "/harness/" in fn_]
+            if ours and ours[-1].startswith(self.lib):
+                self.ctx.fail(self.stage, key + ":raises", f"{type(e).__name__}: {e} (raised inside {os.path.basename(ours[-1])})",
+                              witness=witness() if callable(witness) else witness, snippet=snippet() if callable(snippet) else snippet)
+            elif self.first is None:
+                self.first = e
+
+    def finish(self):
+        if self.first is not None:
+            raise self.first
+
+
+LIB_SRC = '''
+def lib_grid(spec):
+    # a grid of the library from its description
+    import warnings
+    from grid import onedgrid as od
+    from grid.angular import AngularGrid
+    from grid.rtransform import BeckeRTransform
+    with warnings.catch_warnings():
+        warnings.simplefilter("ignore")
+        if spec[0] == "Lebedev":
+            return AngularGrid(degree=spec[1], method="lebedev")
+        if spec[0] == "Becke":              # radial grid on (0, inf): points out to 1e2 ... 1e4, weights over five orders of magnitude
+            return BeckeRTransform(1e-4, spec[2]).transform_1d_grid(od.GaussChebyshev(spec[1]))
+        return getattr(od, spec[0])(spec[1])
+'''
+exec(LIB_SRC, _ns)
+lib_grid = _ns["lib_grid"]
+
+LIB_SNIPPET = """import warnings; warnings.filterwarnings('ignore')
+import math, numpy as np
+from grid.ngrid import MultiDomainGrid
+{integrand_src}
+{lib_src}
+specs, par = {specs!r}, {par!r}
+doms = [lib_grid(s) for s in specs]
+pristine = [(d.points.copy(), d.weights.copy()) for d in doms]
+f = Integrand(**par)
+mg = MultiDomainGrid(doms)
+terms = []
+def rec(k, args, w):
+    if k == len(doms):
+        terms.append(w * complex(f(*args))); return
+    for i in range(doms[k].size):
+        rec(k + 1, args + [doms[k].points[i]], w * float(doms[k].weights[i]))
+rec(0, [], 1.0)
+want = complex(math.fsum(t.real for t in terms), math.fsum(t.imag for t in terms)); scale = math.fsum(abs(t) for t in terms)
+assert int(mg.size) == len(terms), (mg.size, len(terms))
+for c in {chunks!r}:
+    try:
+        got = complex(mg.integrate(f) if c == 'vec' else mg.integrate(f, non_vectorized=True, integration_chunk_size=c))
+    except Exception as e:
+        raise AssertionError(f'{{specs}}: integrate ({{c}}) raised {{type(e).__name__}}: {{e}}')
+    assert abs(got - want) <= 1e-10 * scale, f'{{specs}}: integrate ({{c}}) gives {{got!r}}, nested product quadrature {{want!r}}'
+    assert all(np.array_equal(d.points, p) and np.array_equal(d.weights, w) for d, (p, w) in zip(doms, pristine)), f'{{specs}}: a grid was modified by integrate ({{c}})'
+"""
+
+
 def _real_grids(ctx, nd):
-    """domains from the library's own grid classes (small)."""
-    od = importlib.import_module("grid.onedgrid")
-    ang = importlib.import_module("grid.angular")
+    """domains from the library's own grid classes, as descriptions (small ones; class 19: also Lebedev grids with negative
+    weights, radial grids on (0, inf) whose points reach 1e2 ... 1e4 and whose weights span five orders of magnitude,
+    Gauss-Laguerre)."""
     out = []
     for _ in range(nd):
-        k = ctx.rng.randrange(4)
+        k = ctx.rng.randrange(7)
         if k == 0:
-            out.append(od.GaussLegendre(ctx.rng.randint(2, 6)))
+            out.append(("GaussLegendre", ctx.rng.randint(2, 6)))
         elif k == 1:
-            out.append(od.Trapezoidal(ctx.rng.randint(2, 6)))
+            out.append(("Trapezoidal", ctx.rng.randint(2, 6)))
         elif k == 2:
-            out.append(ang.AngularGrid(degree=3, method="lebedev"))
+            out.append(("Lebedev", 3))
+        elif k == 3:
+            out.append(("MidPoint", ctx.rng.randint(2, 5)))
+        elif k == 4:
+            out.append(("Becke", ctx.rng.choice([4, 8, 12]), ctx.rng.choice([1.5, 50.0])))
+        elif k == 5:
+            out.append(("GaussLaguerre", ctx.rng.randint(2, 8)))
         else:
-            out.append(od.MidPoint(ctx.rng.randint(2, 5)))
+            out.append(("Lebedev", 13) if not any(o[0] == "Lebedev" and o[1] == 13 for o in out) else ("GaussChebyshev", 5))
     return out
+
+
+CTOR_SNIPPET = """import numpy as np
+from grid.basegrid import Grid
+from grid.ngrid import MultiDomainGrid
+g1, g2 = Grid(np.array([0.0, 1.0]), np.array([1.0, 1.0])), Grid(np.zeros((3, 3)), np.ones(3))
+rejected = [((), {{}}), (([],), {{}}), (((g1, g2),), {{}}), (([g1, 'x'],), {{}}), (([g1, g2], 2), {{}}), (([g1, g2],), dict(num_domains=2)), (([g1], 0), {{}}),
+            (([g1], -1), {{}}), (([g1], 2.0), {{}}), (([g1], '2'), {{}}), ((None, 2), {{}})]
+for args, kw in rejected:
+    try:
+        MultiDomainGrid(*args, **kw)
+    except ValueError:
+        continue
+    except Exception as e:
+        raise AssertionError(f'MultiDomainGrid{{args}}{{kw}} raised {{type(e).__name__}} instead of ValueError')
+    raise AssertionError(f'MultiDomainGrid{{args}}{{kw}} was accepted')
+accepted = [(([g1],), {{}}, 1, 2), (([g1, g2],), {{}}, 2, 6), (([g1, g2], None), {{}}, 2, 6), (([g2], 3), {{}}, 3, 27), ((), dict(grid_list=[g1], num_domains=1), 1, 2),
+            ((), dict(num_domains=2, grid_list=[g2]), 2, 9), (([g1, g1, g1],), dict(num_domains=None), 3, 8)]
+for args, kw, nd, size in accepted:
+    mg = MultiDomainGrid(*args, **kw)
+    assert mg.num_domains == nd and int(mg.size) == size == len(list(mg.points)) == len(list(mg.weights)), (args, kw, mg.num_domains, mg.size)
+"""
+
+
+def _oracle_constructor(ctx):
+    """Class 15: every documented argument combination of the constructor -- which ones are rejected (both alternatives at once:
+    several grids AND num_domains; no list; an empty list; something that is not a Grid; num_domains that is not a positive
+    int) and what the accepted ones give (num_domains, size), positional / keyword / None spelled out."""
+    try:
+        exec(CTOR_SNIPPET.format(), {})
+    except AssertionError as e:
+        ctx.fail("oracle", "ngrid.__init__", str(e), witness=str(e), snippet=CTOR_SNIPPET.format())
 
 
 def _oracle_cfg(ctx: Ctx, cfg, chunks=None):
@@ -943,7 +1297,7 @@ def _oracle_cfg(ctx: Ctx, cfg, chunks=None):
     ret = cfg["par"]["ret"]
 
     def snip(what, chunk=0, seq=()):
-        return SNIPPET.format(integrand_src=INTEGRAND_SRC, build_src=BUILD_SRC, cfg=pub, what=what, chunk=chunk, seq=seq, kinds=_expected_kind(cfg["par"]["ret"]))
+        return SNIPPET.format(integrand_src=INTEGRAND_SRC, build_src=BUILD_SRC, cfg=pub, what=what, chunk=chunk, seq=seq, kinds=_expected_kind(cfg["par"]["ret"]), rtol=_rtol(cfg, 1e-10))
 
     # size / enumerations
     ipts, iw = list(mg.points), [float(x) for x in mg.weights]
@@ -964,9 +1318,15 @@ def _oracle_cfg(ctx: Ctx, cfg, chunks=None):
     def attempt(key, what, chunk, fn, ref):
         if what != "separable":
             calls.append(("vec", None) if what == "vec" else ("nonvec", chunk))
-        sn = snip("separable") if what == "separable" else snip("history", seq=list(calls))
+        sn = snip("separable", seq=list(calls)) if what == "separable" else snip("history", seq=list(calls))
         try:
-            res = fn()
+            try:
+                res = fn()
+            finally:
+                bad = intact(cfg, grids, doms)
+                if bad:
+                    ctx.fail("oracle", "ngrid.integrate:grid-modified", f"after the calls {calls} of integrate (integrand {cfg['par']['kind']}, values handed back as {ret}): {bad}",
+                             witness=dict(pub, history=list(calls)), snippet=snip("history", seq=list(calls)))
             if _result_kind(res) not in _expected_kind(ret):
                 ctx.fail("oracle", "ngrid.integrate:result-kind", f"{what}" + (f" with chunk size {chunk}" if chunk is not None else "") + f": integrand values of kind {ret} give a result of kind "
                          f"{_result_kind(res)} ({type(res).__name__} {res!r}), expected {' or '.join(_expected_kind(ret))}; nested product quadrature in complex arithmetic {ref!r}",
@@ -976,7 +1336,7 @@ def _oracle_cfg(ctx: Ctx, cfg, chunks=None):
             ctx.fail("oracle", key, f"{what}: raised {type(e).__name__}: {e} (integrand values handed back as {cfg['par']['ret']}, chunk size as {cfg.get('ctype')}; calls on this object so far {calls})",
                      witness=dict(pub, chunk=chunk, history=list(calls)), snippet=sn)
             return None
-        if not _cclose(got, ref, 1e-10, scale):
+        if not _cclose(got, ref, _rtol(cfg, 1e-10), scale):
             ctx.fail("oracle", key, f"{what}" + (f" with chunk size {chunk}" if chunk is not None else "") + f": integrate gives {got!r}, nested product quadrature {ref!r} (total {len(terms)}; calls on this object so far {calls})",
                      witness=dict(pub, chunk=chunk, got=got, want=ref, history=list(calls)), snippet=sn)
         return got
@@ -995,38 +1355,42 @@ def _oracle_cfg(ctx: Ctx, cfg, chunks=None):
     if v1 is not None and v2 is not None and v1 != v2 and not (v1 != v1 and v2 != v2):
         ctx.fail("oracle", "ngrid.integrate:state", f"the vectorised integral is {v1!r} at first and {v2!r} after other calls on the same object",
                  witness=dict(pub, history=list(calls)), snippet=snip("history", seq=list(calls)))
-    # classes 10 / 11: a freshly built object whose FIRST call is the point-by-point route with a non-default chunk size,
-    # then the vectorised route, then other chunk sizes, the first one again; size / points / weights and the two refusing
-    # methods in between
+    # classes 10 / 11 / 18: a freshly built object whose FIRST call is the point-by-point route with a non-default chunk size, then
+    # the vectorised route, then other chunk sizes, the first one again; in between size / points / weights and calls that end
+    # in an exception (the integrand failing half-way in either route, a negative chunk size, a vectorised integrand of the
+    # wrong length, the two refusing methods).  Every accepted call gives the product quadrature; after every call and every
+    # exception the caller's list, the grids and their arrays are as built.
     cs = [c for c in chunks if c is not None and c >= 1] or [1]
     c1 = ([c for c in cs if 1 < c < tot and tot % c] or [c for c in cs if c < tot] or cs)[-1]       # preferably one that does not divide the total
-    seq = [("nonvec", c1), ("vec", None), ("nonvec", cs[0]), ("nonvec", None), ("nonvec", c1), ("nonvec", cs[-1]), ("vec", None)]
-    mgh = _build(cfg)[0]
+    seq = [("nonvec", c1), ("moments", None), ("raise-nonvec", (c1, max(1, tot // 2))), ("vec", None), ("raise-vec", 1), ("nonvec", cs[0]), ("badchunk", -1),
+           ("nonvec", None), ("get_localgrid", None), ("vecbad", None), ("nonvec", c1), ("nonvec", cs[-1]), ("vec", None)]
+    mgh, listed_h, doms_h = _build(cfg)
     fh = Integrand(**cfg["par"])
     done = []
     for i, (kind, c) in enumerate(seq):
-        try:
-            if i == 2:
-                list(mgh.points), list(mgh.weights), mgh.size
-            if i in (1, 4):
-                try:
-                    mgh.moments(1, np.zeros((1, 3)), np.ones(len(terms))) if i == 1 else mgh.get_localgrid(np.zeros(3), 1.0)
-                    ctx.fail("oracle", "ngrid.refusal", f"{'moments' if i == 1 else 'get_localgrid'} of a multi-domain grid returned instead of raising NotImplementedError",
-                             witness=pub, snippet=snip("refusal"))
-                except NotImplementedError:
-                    pass
-                except Exception as e:
-                    ctx.fail("oracle", "ngrid.refusal", f"{'moments' if i == 1 else 'get_localgrid'} of a multi-domain grid raised {type(e).__name__} ({e}) instead of NotImplementedError",
-                             witness=pub, snippet=snip("refusal"))
-            got = complex(run(mgh, fh, cfg, kind, c))
-        except Exception as e:
-            ctx.fail("oracle", "ngrid.integrate:history", f"call {i} ({kind}, chunk {c}) after {done} on one object raised {type(e).__name__}: {e}",
-                     witness=dict(pub, history=seq[: i + 1]), snippet=snip("history", seq=seq[: i + 1]))
-            break
         done.append((kind, c))
-        if not _cclose(got, want, 1e-10, scale):
+        try:
+            if i == 5:
+                list(mgh.points), list(mgh.weights), mgh.size
+            if kind in EVENTS:
+                name = event(mgh, fh, cfg, kind, c)
+                if kind in ("moments", "get_localgrid") and name != "NotImplementedError":
+                    ctx.fail("oracle", "ngrid.refusal", f"{kind} of a multi-domain grid {'returned' if name is None else 'raised ' + name} instead of raising NotImplementedError",
+                             witness=pub, snippet=snip("refusal"))
+                got = None
+            else:
+                got = complex(run(mgh, fh, cfg, kind, c))
+        except Exception as e:
+            ctx.fail("oracle", "ngrid.integrate:history", f"call {i} ({kind}, chunk {c}) after {done[:-1]} on one object raised {type(e).__name__}: {e}",
+                     witness=dict(pub, history=done), snippet=snip("history", seq=list(done)))
+            break
+        bad = intact(cfg, listed_h, doms_h)
+        if bad:
+            ctx.fail("oracle", "ngrid.integrate:grid-modified", f"on one object, after the calls {done}: {bad}", witness=dict(pub, history=done), snippet=snip("history", seq=list(done)))
+            break
+        if got is not None and not _cclose(got, want, _rtol(cfg, 1e-10), scale):
             ctx.fail("oracle", "ngrid.integrate:history", f"on one object, after the calls {done[:-1]}, the call ({kind}, chunk {c}) gives {got!r}, nested product quadrature {want!r}",
-                     witness=dict(pub, history=done, got=got, want=want), snippet=snip("history", seq=done))
+                     witness=dict(pub, history=done, got=got, want=want), snippet=snip("history", seq=list(done)))
             break
     # class 8: grids translated by an exactly representable amount give bit-identical integrals (the class hands the points through)
     if cfg["par"].get("shift"):
@@ -1051,14 +1415,26 @@ def _oracle_cfg(ctx: Ctx, cfg, chunks=None):
 
 
 def oracle(ctx: Ctx, budget: str):
-    """The property on the implementation against an explicit nested-loop quadrature."""
+    """The property on the implementation against an explicit nested-loop quadrature.  Independent parts (one per
+    configuration / probe), each guarded: see `_Parts`."""
     ng = importlib.import_module("grid.ngrid")
+    parts = _Parts(ctx, "oracle")
+
+    def at(cfg, chunks=None):
+        parts.run("ngrid.integrate", lambda: _oracle_cfg(ctx, cfg, chunks), witness=lambda: _pub(cfg),
+                  snippet=lambda: SNIPPET.format(integrand_src=INTEGRAND_SRC, build_src=BUILD_SRC, cfg=_pub(cfg), what="history", chunk=0,
+                                                 seq=[("vec", None), ("nonvec", 1), ("nonvec", cfg["total"] + 1)], kinds=_expected_kind(cfg["par"]["ret"]), rtol=_rtol(cfg, 1e-10)))
+
     n = 25 if budget == "small" else 400
     fixed = [(3, "list"), (4, "list"), (3, "list-same"), (3, "repeat")]
     for it in range(n):
         cap = 150 if budget == "small" else 700
-        cfg = _config(ctx, cap, *fixed[it]) if it < len(fixed) else _config(ctx, cap)
-        _oracle_cfg(ctx, cfg)
+        at(_config(ctx, cap, *fixed[it]) if it < len(fixed) else _config(ctx, cap))
+    # round 4, present in every run: integrands handing back their argument / a view / a persistent buffer / a read-only array,
+    # arrays of every kind inside the grids, every spelling of the arguments, shared arrays, unequal shapes with sizes 1 and 2
+    for cfg in _round4_configs(ctx):
+        at(cfg)
+    parts.run("ngrid.__init__", lambda: _oracle_constructor(ctx))
     # round 3, present in every run: one-point domains / one object in non-adjacent positions / num_domains = 1 (class 12);
     # integrands and weights that are exactly zero on whole blocks, values and weights of extreme magnitude, translated
     # grids (class 8)
@@ -1078,31 +1454,34 @@ def oracle(ctx: Ctx, budget: str):
                dict(nd=3, mode="repeat", plain=True, ret="mixed"), dict(nd=2, mode="list", plain=True, ret="longdouble"), dict(nd=2, mode="list", plain=True, ret="float32"),
                dict(nd=2, mode="list", plain=True, ret="int"), dict(nd=2, mode="list", plain=True, ret="bool"), dict(nd=2, mode="list", plain=True, ret="0d")]
     for kw in special * (1 if budget == "small" else 6):
-        _oracle_cfg(ctx, _config(ctx, 150, **kw))
+        at(_config(ctx, 150, **kw))
     # class 7: a total just above the default chunk size 6000 (the default splits into 6000 + 1), called with the default
     # and with the sizes next to it
     for sizes in ([[17, 353]] if budget == "small" else [[17, 353], [75, 80], [7, 857], [78, 78]]):
-        _oracle_cfg(ctx, _config(ctx, 10 ** 6, 2, "list", sizes=sizes, plain=True), chunks=[None, 5999, 6001])
+        at(_config(ctx, 10 ** 6, 2, "list", sizes=sizes, plain=True), chunks=[None, 5999, 6001])
     # a point-by-point integrand that hands back a one-element array / list instead of a number: outside the documented
     # contract ("return a float"), observed and reported as information
-    cfg = _config(ctx, 60, 2, "list", sizes=[3, 2], plain=True)
-    cfg["par"]["ret"] = "a1"
-    mg, grids, doms = _build(cfg)
-    f = Integrand(**cfg["par"])
-    want = float(mg.integrate(Integrand(**dict(cfg["par"], ret="float64")), non_vectorized=True))
-    obs = {}
-    for c in (1, 2, 6000):
-        try:
-            obs[c] = float(mg.integrate(f, non_vectorized=True, integration_chunk_size=c))
-        except Exception as e:
-            obs[c] = f"{type(e).__name__}"
-    if any(not isinstance(v, float) or not close(v, want, rtol=1e-10) for v in obs.values()):
-        ctx.info("outside the documented contract (integrand 'returns a float'): a point-by-point integrand returning a one-element array of "
-                 f"shape (1,) gives chunk-size dependent values {obs} (chunk size -> integral; scalar-valued integrand: {want!r}): "
-                 "np.array(list(chunk_values)) has shape (c, 1) and broadcasts against the (c,) weights")
+    def probe_a1():
+        cfg = _config(ctx, 60, 2, "list", sizes=[3, 2], plain=True)
+        cfg["par"]["ret"] = "a1"
+        mg, grids, doms = _build(cfg)
+        f = Integrand(**cfg["par"])
+        want = float(mg.integrate(Integrand(**dict(cfg["par"], ret="float64")), non_vectorized=True))
+        obs = {}
+        for c in (1, 2, 6000):
+            try:
+                obs[c] = float(mg.integrate(f, non_vectorized=True, integration_chunk_size=c))
+            except Exception as e:
+                obs[c] = f"{type(e).__name__}"
+        if any(not isinstance(v, float) or not close(v, want, rtol=1e-10) for v in obs.values()):
+            ctx.info("outside the documented contract (integrand 'returns a float'): a point-by-point integrand returning a one-element array of "
+                     f"shape (1,) gives chunk-size dependent values {obs} (chunk size -> integral; scalar-valued integrand: {want!r}): "
+                     "np.array(list(chunk_values)) has shape (c, 1) and broadcasts against the (c,) weights")
+
+    parts.run("ngrid.integrate:one-element-array", probe_a1)
     # a vectorised integrand that hands back a Python list, on one domain and on two (own key: the single-domain
     # shortcut passes the list on to Grid.integrate, which accepts NumPy arrays only)
-    for nd in (1, 2):
+    def probe_list(nd):
         cfg = _config(ctx, 60, nd, "list")
         cfg["par"]["ret"], cfg["call"] = "list", "kw"
         mg, grids, doms = _build(cfg)
@@ -1121,14 +1500,24 @@ def oracle(ctx: Ctx, budget: str):
             ctx.fail("oracle", "ngrid.integrate:vectorized:list-valued" + (":single-domain" if nd == 1 else ""),
                      f"vectorised integrand returning a Python list, {nd} domain(s): {bad}; the point-by-point route gives "
                      f"{float(mg.integrate(f, non_vectorized=True))!r}", witness=_pub(cfg),
-                     snippet=SNIPPET.format(integrand_src=INTEGRAND_SRC, build_src=BUILD_SRC, cfg=_pub(cfg), what="history", chunk=0, seq=[("vec", None)], kinds=("real",)))
-    # the library's own grid classes as domains
-    for it in range(6 if budget == "small" else 60):
+                     snippet=SNIPPET.format(integrand_src=INTEGRAND_SRC, build_src=BUILD_SRC, cfg=_pub(cfg), what="history", chunk=0, seq=[("vec", None)], kinds=("real",), rtol=1e-10))
+
+    for nd in (1, 2):
+        parts.run("ngrid.integrate:vectorized:list-valued", lambda: probe_list(nd))
+    # the library's own grid classes as domains (class 19: also where their weights are huge / tiny / negative and their points far out)
+    def library(it):
         nd = ctx.rng.randint(1, 3)
-        doms = _real_grids(ctx, nd)
+        specs = _real_grids(ctx, nd)
+        if it < 2:          # always: a far-reaching radial grid (weights up to 1e4) times a Lebedev grid with negative weights, either order
+            specs = [[("Becke", 12, 50.0), ("Lebedev", 13)], [("Lebedev", 13), ("Becke", 8, 1.5)]][it]
+            nd = 2
+        doms = [lib_grid(sp) for sp in specs]
         dims = [1 if d.points.ndim == 1 else 3 for d in doms]
         par = dict(kind=ctx.rng.choice(["sep", "nonsep"]), dims=dims, a=[0.7] * nd, d=[[0.3, -0.5, 0.8]] * nd,
-                   c0=[1.0] * nd, c1=[0.5, -0.4, 0.9][:nd], c2=[0.25, 0.1, -0.2][:nd], ret=ctx.rng.choice(["float64", "complex128"]))
+                   c0=[1.0] * nd, c1=[0.5, -0.4, 0.9][:nd], c2=[0.25, 0.1, -0.2][:nd], ret=ctx.rng.choice(["float64", "complex128", "memo"]))
+        if dims[-1] == 1 and ctx.rng.random() < 0.3:
+            par["kind"], par["ret"] = "lastarg", "float64"            # hands back the last grid's own point array
+        pristine = [(d.points.copy(), d.weights.copy()) for d in doms]
         f = Integrand(**par)
         mg = ng.MultiDomainGrid(doms)
         terms = []
@@ -1141,16 +1530,29 @@ def oracle(ctx: Ctx, budget: str):
                 rec2(k + 1, args + [doms[k].points[i]], w * float(doms[k].weights[i]))
 
         rec2(0, [], 1.0)
-        want, scale = complex(math.fsum(t.real for t in terms), math.fsum(t.imag for t in terms)), math.fsum(abs(t) for t in terms) + 1e-300
+        want, scale = complex(math.fsum(t.real for t in terms), math.fsum(t.imag for t in terms)), math.fsum(abs(t) for t in terms)
         tot = len(terms)
-        res = [("vectorized", complex(mg.integrate(f)))]
-        for c in (1, max(1, tot - 1), tot + 1):
-            res.append((f"chunk", complex(mg.integrate(f, non_vectorized=True, integration_chunk_size=c))))
-        for key, got in res:
+        chunks = ["vec", 1, max(1, tot - 1), tot + 1, "vec"]
+        snippet = LIB_SNIPPET.format(integrand_src=INTEGRAND_SRC, lib_src=LIB_SRC, specs=specs, par=par, chunks=chunks)
+        ctx.tagc("oracle:library-grids:" + "+".join(sorted({sp[0] for sp in specs})))
+        for c in chunks:
+            key = "vectorized" if c == "vec" else "chunk"
+            try:
+                got = complex(mg.integrate(f) if c == "vec" else mg.integrate(f, non_vectorized=True, integration_chunk_size=c))
+            except Exception as e:
+                ctx.fail("oracle", f"ngrid.integrate:{key}:library-grids", f"{specs}: integrate ({c}) raised {type(e).__name__}: {e}", witness=dict(grids=specs, par=par), snippet=snippet)
+                continue
             if not _cclose(got, want, 1e-10, scale) or int(mg.size) != tot:
-                ctx.fail("oracle", f"ngrid.integrate:{key}:library-grids",
-                         f"{[type(d).__name__ + str(d.size) for d in doms]}: integrate {got!r}, nested product quadrature {want!r}, size {mg.size} vs {tot}",
-                         witness=dict(grids=[type(d).__name__ + str(d.size) for d in doms], par=par))
+                ctx.fail("oracle", f"ngrid.integrate:{key}:library-grids", f"{specs}: integrate ({c}) {got!r}, nested product quadrature {want!r}, size {mg.size} vs {tot}",
+                         witness=dict(grids=specs, par=par), snippet=snippet)
+            if not all(np.array_equal(d.points, p_) and np.array_equal(d.weights, w_) for d, (p_, w_) in zip(doms, pristine)):
+                ctx.fail("oracle", "ngrid.integrate:grid-modified:library-grids", f"{specs}: points / weights of a grid changed during integrate ({c}; integrand {par['kind']}, values as {par['ret']})",
+                         witness=dict(grids=specs, par=par), snippet=snippet)
+                break
+
+    for it in range(8 if budget == "small" else 60):
+        parts.run("ngrid.integrate:library-grids", lambda: library(it))
+    parts.finish()
 
 
 def oracle_at(ctx: Ctx, failure):
